@@ -265,4 +265,68 @@ def trunkSweep :
 
 end
 
+/-! ## histories: which input functions the stored branch output belongs to
+    (`DeepONet._forward_branch`, `fix_branch_input`, `FunctionSet.current_iteration_num`) -/
+
+namespace Hist
+
+/-- what the stored branch output of a model was computed from -/
+inductive Src where
+  | empty                          -- `torch.empty(0)`: never evaluated
+  | fixed (tag : Nat)              -- a directly supplied batch (callable / tensor / Points / function set)
+  | set (s : Nat) (draw : Nat)     -- function set `s`, its `draw`-th parameter batch
+deriving DecidableEq, Repr
+
+structure St where
+  iter : Nat → Int      -- `function_set.current_iteration_num` (initially -1)
+  draws : Nat → Nat     -- how often `sample_params` of the set ran
+  holds : Nat → Src     -- per model: the source of `branch.current_out`
+
+def init : St := ⟨fun _ => -1, fun _ => 0, fun _ => .empty⟩
+
+def upd {α : Type} (f : Nat → α) (i : Nat) (v : α) : Nat → α := fun j => if j = i then v else f j
+
+inductive Op where
+  | fb (m s : Nat) (k : Int)       -- `model m._forward_branch(set s, iteration k)` (what a condition does first)
+  | fix (m tag : Nat)              -- `fix_branch_input` / `forward(x, branch_inputs)` with a direct batch
+deriving Repr
+
+/-- the code as it is now: sample once per (set, iteration); re-evaluate the branch unless exactly the
+    output for the current parameter batch of this set is stored in this model.
+    (`none`: the set was never sampled, `create_function_batch` fails) -/
+def step (σ : St) : Op → Option St
+  | .fix m tag => some { σ with holds := upd σ.holds m (.fixed tag) }
+  | .fb m s k =>
+    if k ≠ σ.iter s then
+      some { iter := upd σ.iter s k, draws := upd σ.draws s (σ.draws s + 1),
+             holds := upd σ.holds m (.set s (σ.draws s + 1)) }
+    else if σ.draws s = 0 then none   -- iteration -1 on a set that was never sampled: no parameter batch
+    else some { σ with holds := upd σ.holds m (.set s (σ.draws s)) }
+
+/-- the pinned snapshot: the decision looked at the function set only -/
+def stepOld (σ : St) : Op → Option St
+  | .fix m tag => some { σ with holds := upd σ.holds m (.fixed tag) }
+  | .fb m s k =>
+    if k ≠ σ.iter s then
+      some { iter := upd σ.iter s k, draws := upd σ.draws s (σ.draws s + 1),
+             holds := upd σ.holds m (.set s (σ.draws s + 1)) }
+    else some σ
+
+def run (stp : St → Op → Option St) : St → List Op → Option St
+  | σ, [] => some σ
+  | σ, o :: os => match stp σ o with
+    | none => none
+    | some σ' => run stp σ' os
+
+/-- the sources held by model `m` after every prefix of the history (what the driver prints) -/
+def trace (stp : St → Op → Option St) : St → List Op → List (Option Src)
+  | _, [] => []
+  | σ, o :: os =>
+    let m := match o with | .fb m _ _ => m | .fix m _ => m
+    match stp σ o with
+    | none => [none]
+    | some σ' => some (σ'.holds m) :: trace stp σ' os
+
+end Hist
+
 end TPV.DeepONet
